@@ -216,8 +216,15 @@ where
             datetime.format("%a %b %d").to_string()
         }
         brush_parser::prompt::PromptDateFormat::Custom(fmt) => {
+            // An invalid strftime specifier makes chrono's Display impl fail; write into a
+            // buffer instead of `to_string()` (which panics) and fall back to the raw text.
+            use std::fmt::Write as _;
             let fmt_items = chrono::format::StrftimeItems::new(fmt);
-            datetime.format_with_items(fmt_items).to_string()
+            let mut formatted = String::new();
+            if write!(formatted, "{}", datetime.format_with_items(fmt_items)).is_err() {
+                return fmt.clone();
+            }
+            formatted
         }
     }
 }
